@@ -258,9 +258,10 @@ Section Bodies.
     destruct (String.eqb h "abor") eqn:?; [split; reflexivity|].
     destruct (String.eqb h "rest") eqn:E5.
     { destruct (str_isascii arg && str_isdigit arg) eqn:D.
-      - destruct (int_of_digits arg) eqn:I; [split; reflexivity|].
+      - destruct (Z.of_nat (List.length arg) <=? 18)%Z; cbn [andb]; [|split; reflexivity].
+        destruct (int_of_digits arg) eqn:I; [split; reflexivity|].
         exfalso. apply (NC eq_refl). split; assumption.
-      - split; reflexivity. }
+      - cbn [andb]. split; reflexivity. }
     destruct (String.eqb h "syst") eqn:?; [split; reflexivity|].
     (* a handler the model does not know: excluded by [known_names] *)
     exfalso. unfold mem_s, known_names in K. cbn [existsb] in K.
